@@ -312,7 +312,7 @@ def _source(rng):
 
 
 def generate(rng, tier):
-    n = 120 if tier == "quick" else 1800
+    n = 100 if tier == "quick" else 1800
     cases = []
     for i in range(n):
         schemas = [_source(rng)]
